@@ -1,0 +1,42 @@
+//go:build verif
+
+// Contracts for package graph (the public one; comment-only; compiled to nothing).
+
+package graph
+
+// Populate builds one internal edge per input pair, in order and in the given direction, and one node per distinct
+// identifier; the caller's slices are only read (no region of type []string or [][]string is in the modifies clause).
+//@ func EdgeSlice.Populate
+//@   requires g != nil
+//@   requires forall i int :: 0 <= i && i < len(edges) ==> len(edges[i]) == 2
+//@   modifies graph.DGraph.Nodes, graph.DGraph.Edges, graph.Node.*, graph.Edge.*, Elems[*graph.Node], map[string]*graph.Node, alloc
+//@   ensures[edges] len(g.Edges) == len(edges) && (forall i int :: 0 <= i && i < len(edges) ==>
+//@       g.Edges[i] != nil && g.Edges[i].From != nil && g.Edges[i].To != nil
+//@       && g.Edges[i].From.ID == edges[i][0] && g.Edges[i].To.ID == edges[i][1] && !g.Edges[i].IsReversed)
+//@   ensures[distinct_ids] forall k int, l int :: 0 <= k && k < l && l < len(g.Nodes) ==> g.Nodes[k] != nil && g.Nodes[l] != nil && g.Nodes[k].ID != g.Nodes[l].ID
+//@   ensures[ends_listed] forall i int :: 0 <= i && i < len(g.Edges) ==>
+//@       (exists k int :: 0 <= k && k < len(g.Nodes) && g.Nodes[k] == g.Edges[i].From) && (exists k int :: 0 <= k && k < len(g.Nodes) && g.Nodes[k] == g.Edges[i].To)
+//@   ensures[nothing_else] forall k int :: 0 <= k && k < len(g.Nodes) ==> !g.Nodes[k].IsVirtual
+//@       && (exists i int :: 0 <= i && i < len(edges) && (g.Nodes[k].ID == edges[i][0] || g.Nodes[k].ID == edges[i][1]))
+//@   loop range(edges)#1 index c
+//@     invariant nodeMap != nil && len(edgeList) == c
+//@     invariant[e_nonnil] forall i int :: 0 <= i && i < c ==> edgeList[i] != nil
+//@     invariant[e_alloc] forall i int :: 0 <= i && i < c ==> allocated(edgeList[i])
+//@     invariant[e_fresh] forall i int :: 0 <= i && i < c ==> !old(allocated(now(edgeList[i])))
+//@     invariant[e_ends] forall i int :: 0 <= i && i < c ==> edgeList[i].From != nil && edgeList[i].To != nil && !edgeList[i].IsReversed
+//@     invariant[e_ids] forall i int :: 0 <= i && i < c ==> edgeList[i].From.ID == edges[i][0] && edgeList[i].To.ID == edges[i][1]
+//@     invariant[n_nonnil] forall k int :: 0 <= k && k < len(nodeList) ==> nodeList[k] != nil
+//@     invariant[n_alloc] forall k int :: 0 <= k && k < len(nodeList) ==> allocated(nodeList[k])
+//@     invariant[n_fresh] forall k int :: 0 <= k && k < len(nodeList) ==> !old(allocated(now(nodeList[k])))
+//@     invariant[n_real] forall k int :: 0 <= k && k < len(nodeList) ==> !nodeList[k].IsVirtual
+//@     invariant[n_map] forall k int :: 0 <= k && k < len(nodeList) ==> has(nodeMap, nodeList[k].ID) && nodeMap[nodeList[k].ID] == nodeList[k]
+//@     invariant[n_used] forall k int :: 0 <= k && k < len(nodeList) ==> (exists i int :: 0 <= i && i < c && (nodeList[k].ID == edges[i][0] || nodeList[k].ID == edges[i][1]))
+//@     invariant[map_listed] forall s string :: has(nodeMap, s) && nodeMap[s] != nil ==> (exists k int :: 0 <= k && k < len(nodeList) && nodeList[k] == nodeMap[s] && nodeList[k].ID == s)
+//@     invariant[n_distinct] forall k int, l int :: 0 <= k && k < l && l < len(nodeList) ==> nodeList[k].ID != nodeList[l].ID
+//@     invariant[e_listed] forall i int :: 0 <= i && i < c ==>
+//@       (exists k int :: 0 <= k && k < len(nodeList) && nodeList[k] == edgeList[i].From) && (exists k int :: 0 <= k && k < len(nodeList) && nodeList[k] == edgeList[i].To)
+//@     invariant[arrays] (nodeList == nil || (allocatedArr(nodeList) && !old(allocatedArrId(now(arr(nodeList)))))) && (edgeList == nil || (allocatedArr(edgeList) && !old(allocatedArrId(now(arr(edgeList))))))
+//@     invariant[arrays2] arr(nodeList) != arr(edgeList) || nodeList == nil
+//@     invariant[adj] forall k int :: 0 <= k && k < len(nodeList) ==>
+//@       (nodeList[k].In == nil || (allocatedArr(nodeList[k].In) && !old(allocatedArrId(now(arr(nodeList[k].In)))) && arr(nodeList[k].In) != arr(nodeList) && arr(nodeList[k].In) != arr(edgeList)))
+//@       && (nodeList[k].Out == nil || (allocatedArr(nodeList[k].Out) && !old(allocatedArrId(now(arr(nodeList[k].Out)))) && arr(nodeList[k].Out) != arr(nodeList) && arr(nodeList[k].Out) != arr(edgeList)))
